@@ -168,19 +168,21 @@ LayoutOk(st, N) ==
   /\ NoLeakOf(st, N) /\ ContiguousOf(st, N)
 
 ----------------------------------------------------------------------------
-(* the state machine that TLC explores *)
-VARIABLES size, cap, data, wr, count, oob, q
-vars == <<size, cap, data, wr, count, oob, q>>
+(* the state machine that TLC explores; last is a ghost (the operation of the last step), *)
+(* hidden from the state graph by VIEW                                                    *)
+VARIABLES size, cap, data, wr, count, oob, q, last
+vars == <<size, cap, data, wr, count, oob, q, last>>
+View == <<size, cap, data, wr, count, oob, q>>
 
 St == [h |-> [data |-> data, wr |-> wr, count |-> count, oob |-> oob], q |-> q]
 Becomes(st) == /\ data' = st.h.data /\ wr' = st.h.wr /\ count' = st.h.count /\ oob' = st.h.oob
                /\ q' = st.q /\ UNCHANGED <<size, cap>>
 
-Init == /\ size \in Sizes /\ cap \in Caps
+Init == /\ size \in Sizes /\ cap \in Caps /\ last = <<"init">>
         /\ data = EmptyHeap(size).data /\ wr = 0 /\ count = size /\ oob = FALSE /\ q = <<>>
-Push(c, t) == Becomes(BPush(St, cap, size, c, t))
-Pop        == Becomes(BPop(St, size))
-Clear      == Becomes(BClear(St, size))
+Push(c, t) == Becomes(BPush(St, cap, size, c, t)) /\ last' = <<"push", c, t>>
+Pop        == Becomes(BPop(St, size)) /\ last' = <<"pop">>
+Clear      == Becomes(BClear(St, size)) /\ last' = <<"clear">>
 Next == (\E c \in Codes, t \in Texts(size) : Push(c, t)) \/ Pop \/ Clear
 Spec == Init /\ [][Next]_vars
 
@@ -193,9 +195,11 @@ Contiguous        == ContiguousOf(St, size)
 QueueBounded      == Len(q) <= cap
 
 Abs == AbsOf(St, size)
+(* one step of layer (a) for operation o from abstract queue a to abstract queue b *)
+AStep(a, b, cp, N, o) ==
+  IF o[1] = "push" THEN b \in APush(a, cp, N, o[2], o[3])
+  ELSE IF o[1] = "pop" THEN b = APop(a).q
+  ELSE o[1] = "clear" /\ b = AClear(a)
 (* (b) refines (a): every step of the ring algorithm is the abstract step of the same operation *)
-Refines ==
-  [][ /\ \A c \in Codes, t \in Texts(size) : Push(c, t) => Abs' \in APush(Abs, cap, size, c, t)
-      /\ Pop   => Abs' = APop(Abs).q
-      /\ Clear => Abs' = AClear(Abs) ]_vars
+Refines == [][AStep(Abs, Abs', cap, size, last')]_vars
 =============================================================================
